@@ -318,3 +318,13 @@ class FromLocationBed(Case):
 
 
 CASES += [FromLocationBed(k, n) for k in ("transcript", "feature") for n in (2, 3)]
+
+
+def _thorough(c):
+    c.tier = "thorough"
+    return c
+
+
+# four blocks (quick) and five blocks (thorough), all coordinates, both modes
+CASES += [FeatureBed(4, c) for c in (False, True)] + [TranscriptBed(4, c, True) for c in (False, True)]
+CASES += [_thorough(FeatureBed(5, c)) for c in (False, True)] + [_thorough(TranscriptBed(5, c, True)) for c in (False, True)]
